@@ -254,7 +254,10 @@ def rule_propagation(ctx):
     p = rets[-1]
     evs = p.events
     sup = [i for i, e in enumerate(evs) if e.kind == 'call' and T.call_name(e.a) == '__setitem__' and 'super' in T.show(e.a[1])]
-    if len(sup) != 1 or evs[sup[0]].a[2][-2:] != (KEY, ITEM):
+    def is_pos(t):
+        """the position of the replaced axis, resolved from the key *before* the replacement"""
+        return t[0] == 'call' and ((T.call_name(t) == '_get_idx' and t[2] == (KEY,)) or (T.call_name(t) == 'index' and T.contains(t, KEY)))
+    if len(sup) != 1 or evs[sup[0]].a[2][-1:] != (ITEM,) or not (evs[sup[0]].a[2][-2] == KEY or is_pos(evs[sup[0]].a[2][-2])):
         ctx.violated('R5', fi, 'Axes.__setitem__', 'the replacement itself must go through Axes.__setitem__(key, item) (size check)')
         return
     si = sup[0]
@@ -266,6 +269,8 @@ def rule_propagation(ctx):
     name = s.b
     # the name must be the *old* name: read (bound to a local) before the replacement
     old_name = ('attr', ('sub', SELF, KEY), 'name')
+    if name[0] == 'attr' and name[2] == 'name' and name[1][0] == 'sub' and name[1][1] == SELF and is_pos(name[1][2]):
+        old_name = name
     reads = [i for i, e in enumerate(evs) if e.kind == 'assign' and (e.b == name or (name[0] == 'attr' and e.b == name[1]))]
     if name not in (old_name,) and not (name[0] == 'attr' and name[2] == 'name'):
         ctx.violated('R5', fi, s.node, 'variables are addressed by the name of the replaced dimension; an integer key must be translated to that name first '
@@ -278,8 +283,13 @@ def rule_propagation(ctx):
     if not (s.a[0] == 'attr' and s.a[2] == 'axes' and s.a[1][0] == 'sub' and s.a[1][1] == ('attr', SELF, '_ds')):
         ctx.violated('R5', fi, s.node, 'the assignment must go to the axes of each variable of the attached dataset', node=s.node)
         return
-    if s.c not in (('sub', SELF, KEY), ITEM):
-        ctx.violated('R5', fi, s.node, 'every variable must receive the very Axis object now held by the dataset (self[key])', node=s.node)
+    if s.c == ('sub', SELF, KEY):
+        ctx.violated('R5', fi, 'new axis looked up by the caller\'s key', 'after the replacement the new Axis is fetched as self[key]: when `key` is the old dimension name and the new '
+                     'Axis carries another name, that lookup fails (ValueError) after the dataset\'s own axis was already replaced - the variables keep the old Axis '
+                     'and the dataset is left inconsistent; resolve the position first and use it for the replacement and the lookup', node=s.node)
+        return
+    if not (s.c[0] == 'sub' and s.c[1] == SELF and is_pos(s.c[2])):
+        ctx.violated('R5', fi, s.node, 'every variable must receive the very Axis object now held by the dataset (self[<position>])', node=s.node)
         return
     g = [pol for a, pol in s.guards if a[0] == 'cmp' and a[1] == 'in' and a[2] == name]
     if g != [True]:
@@ -320,15 +330,27 @@ def rule_renames(ctx):
     fi = ctx.fn(DS + 'rename_axes')
     ev = run(ctx, fi, bind={'inplace': T.CONST_TRUE}, mode='join')
     ok = False
+    interleaved = None
     for p in ev.paths:
         for e in p.events:
-            if e.kind == 'store_attr' and e.b == 'name' and e.a[0] == 'sub' and e.a[1] == ('attr', SELF, 'axes') and e.a[2][0] == 'item' and e.a[2][2] == 0 \
-                    and e.c == ('item', e.a[2][1], 1):
-                ok = True
-    if ok:
-        ctx.holds('R6', 'rename_axes: ds.axes[old].name = new')
+            if e.kind == 'store_attr' and e.b == 'name':
+                tgt = e.a
+                # ds.axes[old].name = new inside the loop over the mapping: the lookup by (old) name happens between renames
+                if tgt[0] == 'sub' and tgt[1] == ('attr', SELF, 'axes') and tgt[2][0] == 'item' and tgt[2][2] == 0 and e.c == ('item', tgt[2][1], 1):
+                    interleaved = e
+                # [(ds.axes[old], new) for old, new in ...] first, then ax.name = new
+                if tgt[0] == 'item' and tgt[2] == 0 and e.c == ('item', tgt[1], 1) and tgt[1][0] == 'elem':
+                    src = tgt[1][1]
+                    if src[0] == 'comp' and src[2][0] == 'tuple' and len(src[2][1]) == 2 and src[2][1][0][0] == 'sub' and src[2][1][0][1] == ('attr', SELF, 'axes'):
+                        ok = True
+    if interleaved is not None:
+        ctx.violated('R6', fi, 'lookup by name between renames', 'rename_axes looks each axis up by its old name inside the renaming loop (ds.axes[old].name = new): after the first '
+                     'rename of a swap or chain ({x: y, y: x}) the lookup of `y` finds the axis that was just renamed, so the bulk rename is silently undone; '
+                     'fetch all Axis objects before renaming any', node=interleaved.node)
+    elif ok:
+        ctx.holds('R6', 'rename_axes: all Axis objects fetched from ds.axes first, then renamed')
     else:
-        ctx.violated('R6', fi, 'rename_axes', 'rename_axes must write the new name into the shared Axis object ds.axes[old]')
+        ctx.violated('R6', fi, 'rename_axes', 'rename_axes must write the new name into the shared Axis objects held in ds.axes')
     fi = ctx.fn(DS + 'rename_keys')
     ev = run(ctx, fi, bind={'inplace': T.CONST_TRUE}, mode='join')
     ok = False
